@@ -228,14 +228,32 @@ class Interp:
         a, b = self.get(st.left), self.get(st.right)
         if len(a.descs) != len(b.descs):
             raise NotInterpretable('union of different widths')
-        op = {'union': 'UNION', 'intersect': 'INTERSECT', 'except': 'EXCEPT'}[st.operation]
-        if not st.unique:
-            op += ' ALL'
-        cols = ', '.join(f'c{i}' for i in range(len(a.descs)))
-        try:
-            rows = self.db.execute(f'SELECT {cols} FROM {a.name} {op} SELECT {cols} FROM {b.name}').fetchall()
-        except sqlite3.Error as e:
-            raise NotInterpretable(f'set operation not executable: {e}')
+        # bag / set semantics written out (SQLite has no INTERSECT ALL / EXCEPT ALL to delegate to)
+        from collections import Counter
+        ra, rb = [tuple(x) for x in self.rows(a)], [tuple(x) for x in self.rows(b)]
+        key = lambda row: tuple(('n',) if v is None else ('v', v) for v in row)
+        ca, cb = Counter(map(key, ra)), Counter(map(key, rb))
+        if st.operation not in ('union', 'intersect', 'except'):
+            raise NotInterpretable(f'set operation {st.operation}')
+        if st.operation == 'union':
+            rows = ra + rb
+            want = None
+        elif st.operation == 'intersect':
+            rows = ra
+            want = {k: min(n, cb.get(k, 0)) for k, n in ca.items()}
+        else:
+            rows = ra
+            want = {k: (max(n - cb.get(k, 0), 0) if not st.unique else (0 if cb.get(k, 0) else n)) for k, n in ca.items()}
+        out, seen = [], Counter()
+        for row in rows:
+            k = key(row)
+            if want is not None and seen[k] >= want[k]:
+                continue
+            if st.unique and seen[k] >= 1:
+                continue
+            seen[k] += 1
+            out.append(row)
+        rows = out
         return self.materialise(rows, list(a.descs))
 
     def do_LimitOffsetStep(self, st):
